@@ -115,6 +115,12 @@ func (upc *BroadcastRawUDPConn) ReadFrom(b []byte) (int, net.Addr, error) {
 			continue
 		}
 
+		// The IP payload must at least hold a UDP header, or the DHCP
+		// length computed below is negative.
+		if int(ipHdr.payloadLength()) < udpHdrLen {
+			continue
+		}
+
 		udpHdr := udp(buf.Consume(udpHdrLen))
 
 		addr := &net.UDPAddr{
